@@ -17,22 +17,19 @@ structure Outcome where
   panicked : Bool
   deriving DecidableEq
 
-def specOutcome (fuel : Nat) (p : Stmt) (s : St) : Option Outcome :=
-  match exec fuel p s with
+def specOutcome (fs : Funs) (fuel : Nat) (p : Stmt) (s : St) : Option Outcome :=
+  match exec fs fuel p s with
   | some (.panic, s') => some ⟨s'.out, true⟩
   | some (_, s') => some ⟨s'.out, false⟩
   | none => none
 
 def machineOutcome : MState → Outcome
-  | .run _ s => ⟨s.out, false⟩
+  | .run _ s _ => ⟨s.out, false⟩
+  | .done s => ⟨s.out, false⟩
   | .panicked s => ⟨s.out, true⟩
 
-theorem embeds_self (code : List Instr) : Embeds code code 0 := by
-  intro i _; simp
-
-/-- the execution loop stops at the end of the code and after a panic -/
-theorem halted_at_end (code : List Instr) (s : St) : step code (.run code.length s) = none := by
-  simp [step]
+/-- the execution loop stops when the outermost function has returned and after a panic -/
+theorem halted_done (code : List Instr) (s : St) : step code (.done s) = none := rfl
 theorem halted_panicked (code : List Instr) (s : St) : step code (.panicked s) = none := rfl
 
 /-- `runFuel` (what the driver executes) follows `steps` until the machine halts -/
@@ -56,45 +53,75 @@ theorem runFuel_of_steps (code : List Instr) : ∀ (n : Nat) (m final : MState),
       exact ih m' final h hf
 
 /-- the step-by-step simulation (all statements, all embeddings of the compiled fragment in a larger graph,
-    all break/continue targets): the induction behind `compile_correct` -/
-theorem simulation (code : List Instr) (fuel : Nat) (p : Stmt) (s s' : St) (sig : Sig) (base next brk cont : Nat)
-    (hwf : p.wf = true) (h : exec fuel p s = some (sig, s'))
-    (hemb : Embeds code (compile p base next brk cont) base) :
-    ∃ n, steps code n (.run base s) = some (target next brk cont sig s') :=
-  sim code fuel p s s' sig base next brk cont hwf h hemb
+    all break/continue targets, all stacks of suspended callers): the induction behind `compile_correct` -/
+theorem simulation (code : List Instr) (fs : Funs) (ent : Nat → Nat)
+    (hfe : FunsEmbed code fs ent) (hfw : Funs.wf fs)
+    (fuel : Nat) (p : Stmt) (s s' : St) (sig : Sig) (base next brk cont : Nat) (σ : List Frame)
+    (hwf : p.wf = true) (h : exec fs fuel p s = some (sig, s'))
+    (hemb : Embeds code (compile ent p base next brk cont) base) :
+    ∃ n, steps code n (.run base s σ) = some (target next brk cont σ sig s') :=
+  sim code fs ent hfe hfw fuel p s s' sig base next brk cont σ hwf h hemb
 
 /-- conditions: `&&` / `||` / `!` compiled to branches reach the true or the false exit according to
     Go's short-circuit evaluation, and an operand that panics panics the machine -/
-theorem condition_simulation (code : List Instr) (s : St) (c : BExpr) (base t f : Nat)
+theorem condition_simulation (code : List Instr) (s : St) (σ : List Frame) (c : BExpr) (base t f : Nat)
     (hemb : Embeds code (compileCond c base t f) base) :
-    (∀ v, c.eval s = some v → ∃ n, steps code n (.run base s) = some (.run (if v then t else f) s)) ∧
-    (c.eval s = none → ∃ n, steps code n (.run base s) = some (.panicked s)) :=
-  cond_sim code s c base t f hemb
+    (∀ v, c.eval s = some v → ∃ n, steps code n (.run base s σ) = some (.run (if v then t else f) s σ)) ∧
+    (c.eval s = none → ∃ n, steps code n (.run base s σ) = some (.panicked s)) :=
+  cond_sim code s σ c base t f hemb
+
+/-- the layout of a compiled program: main at address 0, every declared function at its entry -/
+theorem program_layout (fs : Funs) (main : Stmt) :
+    Embeds (compileProg fs main) (compileFn (entryOf main fs) main 0) 0 ∧
+    FunsEmbed (compileProg fs main) fs (entryOf main fs) :=
+  ⟨compileProg_main fs main, compileProg_funs fs main⟩
 
 /-- **Compilation to the control-flow graph and the closure loop preserve behaviour.**
-    For every well-formed program of the fragment, every start state and every amount of fuel:
-    if the Go semantics terminates (normally or with a run-time panic), the execution loop over
-    the compiled graph halts after finitely many closures with the same printed output and the
-    same kind of end. -/
-theorem compile_correct (p : Stmt) (s : St) (fuel : Nat) (o : Outcome)
-    (hwf : p.wf = true) (h : specOutcome fuel p s = some o) :
-    ∃ n final, runFuel (compileProg p) n (.run 0 s) = some final ∧ machineOutcome final = o := by
+    For every program — a main body and declared (possibly recursive) functions, all well formed —
+    every start state and every amount of fuel: if the Go semantics terminates (normally, by
+    `return`, or with a run-time panic), the execution loop over the compiled graph halts after
+    finitely many closures with the same printed output and the same kind of end. -/
+theorem compile_correct (fs : Funs) (p : Stmt) (s : St) (fuel : Nat) (o : Outcome)
+    (hwf : p.wf = true) (hfw : Funs.wf fs) (h : specOutcome fs fuel p s = some o) :
+    ∃ n final, runFuel (compileProg fs p) n (.run 0 s []) = some final ∧ machineOutcome final = o := by
   unfold specOutcome at h
-  cases hx : exec fuel p s with
+  cases hx : exec fs fuel p s with
   | none => simp [hx] at h
   | some r =>
     obtain ⟨sig, s'⟩ := r
-    obtain ⟨n, hn⟩ := sim (compileProg p) fuel p s s' sig 0 p.size p.size p.size hwf hx
-      (by simpa [compileProg] using embeds_self (compileProg p))
-    have hlen : (compileProg p).length = p.size := compile_length p 0 p.size p.size p.size
-    refine ⟨n + 1, target p.size p.size p.size sig s', ?_, ?_⟩
-    · apply runFuel_of_steps _ _ _ _ hn
-      cases sig <;> simp only [target]
-      · rw [← hlen]; exact halted_at_end _ _
-      · rw [← hlen]; exact halted_at_end _ _
-      · rw [← hlen]; exact halted_at_end _ _
-      · rfl
-    · cases sig <;> simp [hx] at h <;> simp [target, machineOutcome, ← h]
+    have hmain := compileProg_main fs p
+    unfold compileFn at hmain
+    have hbody := hmain.left
+    have hret := Embeds.head hmain.right
+    rw [compile_length] at hret
+    simp only [Nat.zero_add] at hret hbody
+    obtain ⟨n, hn⟩ := sim (compileProg fs p) fs (entryOf p fs) (compileProg_funs fs p) hfw fuel p s s' sig
+      0 p.size p.size p.size [] hwf hx hbody
+    -- a main body that ends without `return` reaches the trailing `return 0`
+    have fell : target p.size p.size p.size [] sig s' = .run p.size s' [] →
+        steps (compileProg fs p) (n + 1) (.run 0 s []) = some (.done s') := by
+      intro ht
+      rw [ht] at hn
+      refine steps_trans hn ?_
+      simp [steps, step, hret, Expr.eval, doReturn]
+    cases sig with
+    | normal =>
+      simp only [hx, Option.some.injEq] at h
+      exact ⟨n + 1 + 1, .done s', runFuel_of_steps _ _ _ _ (fell rfl) rfl, by simp [machineOutcome, ← h]⟩
+    | brk =>
+      simp only [hx, Option.some.injEq] at h
+      exact ⟨n + 1 + 1, .done s', runFuel_of_steps _ _ _ _ (fell rfl) rfl, by simp [machineOutcome, ← h]⟩
+    | cont =>
+      simp only [hx, Option.some.injEq] at h
+      exact ⟨n + 1 + 1, .done s', runFuel_of_steps _ _ _ _ (fell rfl) rfl, by simp [machineOutcome, ← h]⟩
+    | panic =>
+      simp only [hx, Option.some.injEq] at h
+      exact ⟨n + 1, .panicked s', runFuel_of_steps _ _ _ _ (by simpa [target] using hn) rfl,
+        by simp [machineOutcome, ← h]⟩
+    | ret v =>
+      simp only [hx, Option.some.injEq] at h
+      exact ⟨n + 1, .done s', runFuel_of_steps _ _ _ _ (by simpa [target, doReturn] using hn) rfl,
+        by simp [machineOutcome, ← h]⟩
 
 /-- the machine is deterministic, so the outcome above is *the* outcome of the compiled program:
     any two halting runs agree -/
@@ -131,7 +158,7 @@ def exProg : Stmt :=
 
 def st0 : St := { vars := fun _ => 0, out := [] }
 
-example : exProg.wf = true ∧ specOutcome 60 exProg st0 = some ⟨[0, 1, 3, 6, 11, 3], false⟩ := by
+example : exProg.wf = true ∧ specOutcome [] 60 exProg st0 = some ⟨[0, 1, 3, 6, 11, 3], false⟩ := by
   constructor
   · rfl
   · decide
@@ -147,13 +174,25 @@ def exSwitch : Stmt :=
         (.cons (.cmp .eq (.lit 0) (.lit 0)) (.print (.lit 199)) false .nil)))))
       (.assign 0 (.bin .add (.var 0) (.lit 1))))
 
-example : exSwitch.wf = true ∧ specOutcome 60 exSwitch st0 = some ⟨[100, 101, 199], false⟩ := by
+example : exSwitch.wf = true ∧ specOutcome [] 60 exSwitch st0 = some ⟨[100, 101, 199], false⟩ := by
   constructor
   · rfl
   · decide
 
+/-- a recursive function (factorial with an accumulator, written with a temporary for the call) -/
+def exFact : Stmt :=
+  .ite (.cmp .le (.var 0) (.lit 0)) (.ret (.var 1))
+    (.seq (.call 2 0 [.bin .sub (.var 0) (.lit 1), .bin .mul (.var 1) (.var 0)]) (.ret (.var 2)))
+
+def exCallMain : Stmt := .seq (.call 0 0 [.lit 5, .lit 1]) (.print (.var 0))
+
+example : exCallMain.wf = true ∧ exFact.wf = true ∧
+    specOutcome [exFact] 40 exCallMain st0 = some ⟨[120], false⟩ := by
+  refine ⟨rfl, rfl, ?_⟩
+  decide
+
 /-- … and a division by zero ends in a panic after the output produced so far -/
-example : specOutcome 10 (.seq (.print (.lit 5)) (.print (.bin .quo (.lit 1) (.var 0)))) st0 = some ⟨[5], true⟩ := by
+example : specOutcome [] 10 (.seq (.print (.lit 5)) (.print (.bin .quo (.lit 1) (.var 0)))) st0 = some ⟨[5], true⟩ := by
   decide
 
 end YaegiVerif.Props.C01
